@@ -424,4 +424,80 @@ theorem negate_small (t : TInfo) (v : MInt) (h0 : 0 < t.bits) (h64 : t.bits ≤ 
   have hsm : (({ bits := t.bits, i64 := 0#64 } : MInt).isSmall) = true := by simp [MInt.isSmall, h64]
   simp [negate, newInt, hne, Mpa.sub, hsm, setSmall_eq _ _ h64, liftP, bind, Except.bind, MInt.small]
 
+/-! ### Literals and typed non-negative constants -/
+
+theorem constSize_pos (b : Nat) : 0 < constSize b := by
+  unfold constSize; split
+  · omega
+  · split <;> omega
+
+theorem constantMpa_none (val : MInt) :
+    constantMpa val none =
+      .ok (.int ⟨.int, constSize val.bitLen, val.bitLen⟩ { val with bits := constSize val.bitLen }) := by
+  unfold constantMpa
+  have := le_constSize val.bitLen
+  have hp := constSize_pos val.bitLen
+  simp only []
+  rw [if_pos hp, if_neg (by omega)]
+
+theorem constantMpa_none_small (val : MInt) (hbl : val.bitLen ≤ 64) :
+    ∃ t v, constantMpa val none = .ok (.int t v) ∧ t.kind = .int ∧ 0 < v.bits ∧ v.bits ≤ 64 ∧ v.small = val.small := by
+  rw [constantMpa_none]
+  exact ⟨_, _, rfl, rfl, constSize_pos _, constSize_le_64 _ hbl, rfl⟩
+
+theorem natBitLen_le_64 (a : Nat) (h : a < 2 ^ 64) : natBitLen a ≤ 64 := by
+  unfold natBitLen
+  split
+  · omega
+  · rename_i h0
+    have : Nat.log2 a < 64 := (Nat.log2_lt h0).2 h
+    omega
+
+theorem setBig_nat (a : Nat) (ha : a < 2 ^ 64) : (setBig (a : Int)).bitLen ≤ 64 ∧ (setBig (a : Int)).small.toNat = a := by
+  have hmod : ((a : Int) % ((2 ^ 64 : Nat) : Int)).toNat = a := by
+    have : ((a : Int) % ((2 ^ 64 : Nat) : Int)) = (a : Int) :=
+      Int.emod_eq_of_lt (Int.natCast_nonneg a) (by exact_mod_cast ha)
+    rw [this]; simp
+  unfold setBig
+  split
+  · constructor
+    · simp only [MInt.bitLen, MInt.isSmall, Nat.le_refl, decide_true, if_true]
+      exact bitLen64_le _
+    · simp only [MInt.small]
+      rw [BitVec.toNat_ofInt]; exact hmod
+  · constructor
+    · simp only [MInt.bitLen, MInt.isSmall, MInt.bigv, Int.natAbs_natCast]
+      split
+      · split
+        · exact bitLen64_le _
+        · exact natBitLen_le_64 a ha
+      · split
+        · exact bitLen64_le _
+        · exact natBitLen_le_64 a ha
+    · simp only [MInt.small]
+      rw [BitVec.toNat_ofInt]; exact hmod
+
+/-- The literal `a` (0 ≤ a < 2^64) is a small constant holding exactly `a`. -/
+theorem literal_small (a : Nat) (ha : a < 2 ^ 64) :
+    ∃ t v, literal a = .ok (.int t v) ∧ t.kind = .int ∧ 0 < v.bits ∧ v.bits ≤ 64 ∧ v.small.toNat = a := by
+  obtain ⟨h1, h2⟩ := setBig_nat a ha
+  obtain ⟨t, v, e, hk, h0, h64, hs⟩ := constantMpa_none_small _ h1
+  exact ⟨t, v, e, hk, h0, h64, by rw [hs]; exact h2⟩
+
+/-- `T(a)` for `0 ≤ a < 2^n`, `n ≤ 64`: a small constant of type `T` holding exactly `a`. -/
+theorem typedConst_pos (k : Kind) (n a : Nat) (hn : n ≤ 64) (ha : a < 2 ^ n) :
+    ∃ t v, typedConst k n (a : Int) .pos = .ok (.int t v) ∧ t.kind = k ∧ t.bits = n ∧ 0 < v.bits ∧ v.bits ≤ 64 ∧
+      v.small.toNat = a ∧ seenBV n (.int t v) = BitVec.ofNat n a := by
+  have ha64 : a < 2 ^ 64 := Nat.lt_of_lt_of_le ha (Nat.pow_le_pow_right (by omega) hn)
+  obtain ⟨t, v, e, _, h0, h64, hs⟩ := literal_small a ha64
+  have e' : literal (a : Int).natAbs = .ok (.int t v) := by rw [Int.natAbs_natCast]; exact e
+  refine ⟨⟨k, n, if t.minBits > n then n else t.minBits⟩, v, ?_, rfl, rfl, h0, h64, hs, ?_⟩
+  · unfold typedConst
+    simp only []
+    rw [e']
+    rfl
+  · rw [seenBV_small n _ v h64 (Nat.le_refl n)]
+    apply BitVec.eq_of_toNat_eq
+    rw [BitVec.toNat_setWidth, hs, BitVec.toNat_ofNat]
+
 end Mpc.Fold
